@@ -1,18 +1,31 @@
 (* OriginQ.v — the Origin model over exact rationals, as run by the
    correspondence check of C13. *)
 From Coq Require Import List ZArith QArith Bool.
-From PA Require Import base.Arr base.QClose model.Origin.
+From PA Require Import base.Arr base.QClose model.Center model.Origin.
 Import ListNotations.
 
 Definition Qofnat (n : nat) : Q := inject_Z (Z.of_nat n).
 Definition Qltb (a b : Q) : bool := negb (Qle_bool b a).
-Definition find_originQ := find_origin 0%Q Qplus Qmult Qdiv Qofnat Qltb.
+(* Python round(): nearest integer, ties to even (model/Center.v qround_even) *)
+Definition Qrnd (q : Q) : Q := inject_Z (qround_even q).
+Definition find_originQ := find_origin_opt 0%Q Qplus Qmult Qdiv Qofnat Qltb Qrnd.
+Definition conv_projectionsQ := conv_projections 0%Q Qplus Qmult.
 Definition sumQ := sum 0%Q Qplus.
 
 (* ENonFinite: centre of mass of an image whose total is zero (nan / inf) *)
 Inductive expect := EOk (r c : Q) | ENonFinite.
 
-Record case := { c_im : list (list Q); c_meth : method; c_ax0 : bool; c_ax1 : bool; c_expect : expect }.
+(* c_proj: the autoconvolutions returned with projections=True (convolution
+   method only): Some (conv_0, conv_1), each None for an axis not requested *)
+Record case := { c_im : list (list Q); c_meth : method; c_ax0 : bool; c_ax1 : bool; c_round : bool;
+                 c_proj : option (option (list Q) * option (list Q)); c_expect : expect }.
+
+Definition olist_close (a b : option (list Q)) : bool :=
+  match a, b with
+  | None, None => true
+  | Some x, Some y => row_close x y
+  | _, _ => false
+  end.
 
 Definition check (c : case) : bool :=
   let zero_total := Qeq_bool (sumQ (map sumQ (c_im c))) 0 in
@@ -21,6 +34,12 @@ Definition check (c : case) : bool :=
   | ENonFinite => uses_com && zero_total
   | EOk r cc =>
     negb (uses_com && zero_total) &&
-    let '(a, b) := find_originQ (c_meth c) (c_im c) (c_ax0 c) (c_ax1 c) in
-    qclose a r && qclose b cc
+    (let '(a, b) := find_originQ (c_meth c) (c_im c) (c_ax0 c) (c_ax1 c) (c_round c) in
+     qclose a r && qclose b cc) &&
+    match c_proj c with
+    | None => true
+    | Some (p0, p1) =>
+      let '(m0, m1) := conv_projectionsQ (c_im c) (c_ax0 c) (c_ax1 c) in
+      olist_close m0 p0 && olist_close m1 p1
+    end
   end.
